@@ -437,9 +437,24 @@ fn gen_unit(idx: usize, rng: &mut Rng) -> Result<Unit, String> {
 
 /// Everything that is derived from the IDL tree: text, generated module + driver, expectations.
 fn build_unit(idx: usize, iface: Iface) -> Result<Unit, String> {
+    // one interface in three carries comments of its own in front of the `interface` line
+    let mut iface = iface;
+    if idx % 3 == 1 && iface.comments.is_empty() {
+        iface.comments = vec!["The interface under test.".into(), "Second line; with (punctuation): #1".into()];
+    }
     let text = render(&iface, &Layout(vec![]));
     let parsed = zlink_core::idl::Interface::try_from(text.as_str()).map_err(|e| format!("generated IDL does not parse: {e}\n{text}"))?;
-    let code = zlink_codegen::generate_interface(&parsed).map_err(|e| format!("codegen failed: {e}"))?;
+    // one interface in four goes through the multi-interface entry point (what the command line
+    // tool and build scripts use), together with a small commented companion whose item names
+    // cannot collide with anything generated here
+    let code = if idx % 4 == 2 {
+        let companion_text = format!("# A companion interface.\n# It shares the generated file.\ninterface org.gen.pair{idx}.ZzPair\n\n# ping\nmethod ZzPing(zz_token: string) -> (zz_ok: bool)\n");
+        let companion = zlink_core::idl::Interface::try_from(companion_text.as_str()).map_err(|e| format!("companion IDL does not parse: {e}"))?;
+        let both = if idx % 8 == 2 { [parsed.clone(), companion] } else { [companion, parsed.clone()] };
+        zlink_codegen::generate_interfaces(&both).map_err(|e| format!("codegen (two interfaces) failed: {e}"))?
+    } else {
+        zlink_codegen::generate_interface(&parsed).map_err(|e| format!("codegen failed: {e}"))?
+    };
     let env = Env { iface: &iface };
     let mut expect = BTreeMap::new();
     let mut driver = String::from("\n// ---- driver written by the verification harness ----\nuse crate::prelude::*;\n\npub fn run(out: &mut Vec<Record>) {\n");
